@@ -58,8 +58,13 @@ def main():
         rec["ran"].append("PYTHONPATH=<worktree> python demo.py (untouched): exit %d" % r.returncode)
         r = sh(["git", "-C", wt, "apply", patch])
         if r.returncode != 0:
+            # written against an earlier commit: try a three-way merge onto the current base
+            r = sh(["git", "-C", wt, "apply", "--3way", patch])
+            rec["applied_with_3way"] = r.returncode == 0
+        if r.returncode != 0:
             print("patch does not apply:", r.stderr)
             rec["applies"] = False
+            print(json.dumps(rec))
             return 2
         rec["applies"] = True
         r = sh([PY, demo], env=env, cwd=base, timeout=600)
